@@ -593,3 +593,17 @@ def run(ctx):
     _run_before_clock(ctx)
     # termination also when the step size is below the resolution of the times (float32 ts far from the origin)
     ctx.guard(ik.rule_clock_progress, "R12.9")
+
+
+_run_before_r12_10 = run
+
+
+def run(ctx):
+    _run_before_r12_10(ctx)
+    # whole solves with the real steps, as canonical forms (solver_replay.py)
+    from . import solver_replay
+    ctx.guard(solver_replay.r12_10)
+
+
+EXPLANATION = EXPLANATION + " " + (
+    "R12.10 (solver_replay.py): BaseSDESolver.integrate and the step of every distinct (solver class, noise type, option) scenario are interpreted together on concrete rational times (dt = 1/8) with an opaque SDE and an opaque Brownian motion; a reference solve reports every grid point of the horizon (3/8, and 5/16 whose last step is clipped; two steps for the SRK diagonal / scalar step, whose forms grow fastest); solves that request only the end points, or outputs on the grid, inside steps and twice inside one step, must return the reference's grid states, the linear interpolants of its neighbouring grid states, and its final extra solver state, as canonical forms.")
